@@ -153,6 +153,9 @@ def load_config(file_name):
         raise UIError("Parsing of the config file "
                       + file_name + " failed.\nError " + str(err) + "\n", err)
 
+    if config_data is None:
+        raise UIError("The config file " + file_name + " is empty.\n", None)
+
     try:
         validators = []
         validate_config(config_data, validators)
